@@ -3,6 +3,7 @@
 use crate::driver::{fail, Ctx, PResult, Property, Tier};
 use crate::gen::func::*;
 use crate::gen::inst::*;
+use crate::exact::{q, Poly};
 use crate::model::*;
 use crate::props::c05::{describe_inst, fp_instance};
 use crate::tape::Tape;
@@ -282,15 +283,16 @@ fn smap(m: &HashMap<String, String>) -> BTreeMap<String, String> {
     m.iter().map(|(k, v)| (k.clone(), v.clone())).collect()
 }
 
+/// "the typed view carries the same content": the same polynomial, coefficient for coefficient (exact). Which container
+/// holds it, and whether terms with coefficient 0 are kept, is representation, not content.
 fn typed_function_matches(t: &ommx::Function, f: &v1::Function) -> bool {
-    use v1::function::Function as F;
-    match (t, &f.function) {
-        (ommx::Function::Constant(a), Some(F::Constant(b))) => a.to_bits() == b.to_bits() || a == b,
-        (ommx::Function::Linear(a), Some(F::Linear(b))) => a == b,
-        (ommx::Function::Quadratic(a), Some(F::Quadratic(b))) => a == b,
-        (ommx::Function::Polynomial(a), Some(F::Polynomial(b))) => a == b,
-        _ => false,
-    }
+    let tp = match t {
+        ommx::Function::Constant(a) => Poly::constant(q(*a)),
+        ommx::Function::Linear(a) => Poly::from_linear(a),
+        ommx::Function::Quadratic(a) => Poly::from_quadratic(a),
+        ommx::Function::Polynomial(a) => Poly::from_polynomial(a),
+    };
+    tp == Poly::from_function(f)
 }
 
 fn check_typed_constraint(sig: &str, t: &ommx::Constraint, c: &v1::Constraint) -> PResult {
@@ -578,6 +580,8 @@ impl Property for C08 {
         cfg.allow_absent_function = false;
         cfg.func.max_terms = 4;
         cfg.max_vars = 5;
+        // all five kinds of the schema (semi-integer, semi-continuous included)
+        cfg.kinds.extend([4, 5]);
         let gi = gen_instance(t, &cfg, ctx);
         let base = gi.inst.clone();
         fp_instance(ctx, &base);
@@ -733,6 +737,13 @@ impl Property for C08 {
                 ("dup-variable-id", Box::new(|m| { if let Some(v) = m.decision_variables.first().cloned() { m.decision_variables.push(v); } else { let p = m.parameters[0].clone(); m.parameters.push(p); } })),
                 ("undefined-id-objective", Box::new(|m| add_undefined(&mut m.objective, UNDEF, 0))),
                 ("dup-constraint-id", Box::new(|m| { if let Some(c) = m.constraints.first().cloned() { m.constraints.push(c); } else { add_undefined(&mut m.objective, UNDEF, 1) } })),
+                ("dup-removed-constraint-id", Box::new(|m| { if let Some(c) = m.removed_constraints.first().cloned() { m.removed_constraints.push(c); } else { add_undefined(&mut m.objective, UNDEF, 1) } })),
+                ("constraint-id-active-and-removed", Box::new(|m| {
+                    match (m.constraints.first().map(|c| c.id), m.removed_constraints.first_mut()) {
+                        (Some(id), Some(rc)) => rc.constraint.as_mut().unwrap().id = id,
+                        _ => add_undefined(&mut m.objective, UNDEF, 1),
+                    }
+                })),
             ];
             if !pi.parameters.is_empty() {
                 for (name, f) in checks {
